@@ -332,7 +332,8 @@ fn cut_points(env: &Env, rng: &mut Rng, all_upto: u64, sample: u64) -> (Vec<u64>
     v.sort();
     v.dedup();
     // keep the cost of a sampled file comparable to an exhaustive one
-    let cap = all_upto.max(600) as usize;
+    // (a save or load of a large file costs proportionally more: fewer points there)
+    let cap = if len > 32 * 1024 { if env.container.compressed() { 40 } else { 160 } } else { all_upto.max(600) as usize };
     if v.len() > cap {
         let step = v.len().div_ceil(cap);
         let off = rng.below(step as u64) as usize;
@@ -417,7 +418,7 @@ fn enum_c08(ctx: &mut Ctx, seed: u64) -> Result<(), String> {
 
 fn enum_c07(ctx: &mut Ctx, seed: u64) -> Result<(), String> {
     let mut rng = Rng::new(seed);
-    let mut base = gen::gen_base("C07", &mut rng, !ctx.tier_thorough, seed);
+    let mut base = gen::gen_base("C07", &mut rng, false, seed);
     base.load_key = base.key;
     let mut env = prepare(&base)?;
     let limit = match (ctx.tier_thorough, base.container.compressed()) {
